@@ -1,6 +1,7 @@
 package props
 
 import (
+	"strconv"
 	"time"
 
 	"verif/mc/doc"
@@ -32,8 +33,46 @@ func c08Leaves() (all, small []gen.Expr) {
 
 var arith = []string{"+", "-", "*", "div", "mod"}
 
+// numberLexemes enumerates EVERY XPath Number token (Digits ('.' Digits?)? |
+// '.' Digits) over the digit alphabet up to maxLen characters; the reference
+// value is the correctly rounded decimal (strconv).
+func numberLexemes(digits string, maxLen int) []gen.Expr {
+	var out []gen.Expr
+	var rec func(s string, dots int)
+	rec = func(s string, dots int) {
+		if s != "" && s != "." {
+			v, err := strconv.ParseFloat(s, 64)
+			if err != nil {
+				panic("numberLexemes: " + s)
+			}
+			out = append(out, lit(s, v))
+		}
+		if len(s) == maxLen {
+			return
+		}
+		for _, d := range digits {
+			rec(s+string(d), dots)
+		}
+		if dots == 0 {
+			rec(s+".", 1)
+		}
+	}
+	rec("", 0)
+	return out
+}
+
 func c08Spaces(tier string) []*explore.Space {
 	all, small := c08Leaves()
+	// A0: every number lexeme over a digit alphabet up to a length, alone, under
+	// string(), and as an operand next to an operator / bracket (token boundary)
+	var a0 []gen.Expr
+	lexLen := 4
+	if tier == "thorough" {
+		lexLen = 6
+	}
+	for _, l := range numberLexemes("0123579", lexLen) {
+		a0 = append(a0, l, gen.F("string", l), gen.B("+", l, lit("1", 1)), gen.B("=", l, lit(strconv.FormatFloat(l.(*gen.Num).V, 'f', -1, 64), l.(*gen.Num).V)))
+	}
 	// A1: leaves, unary minus chains, floor/ceiling of leaves
 	var a1 []gen.Expr
 	for _, l := range all {
@@ -120,6 +159,8 @@ func c08Spaces(tier string) []*explore.Space {
 	vals := []string{"1", "2", "x", "", "0.5", " 3 ", " -2", "4."}
 	docs := func() []*doc.Tree { return uniV(n, vals) }
 	sp := []*explore.Space{
+		exprSpace("A0", "every Number token over digits {0,1,2,3,5,7,9} and '.' up to the length bound: value, string(), token boundary, equality with its canonical spelling", a0,
+			func() []*doc.Tree { return uniV(1, vals[:2]) }, ev),
 		exprSpace("A1", "leaves, unary minus x1..3, floor/ceiling", a1, docs, ev),
 		exprSpace("A2", "one binary operator over all leaf pairs", a2, docs, ev),
 		exprSpace("A3", "two binary operators (with and without parentheses) over the reduced leaves", a3, docs, ev),
